@@ -669,6 +669,10 @@ func (ctx *Context) evaluate() {
 				break
 			}
 			d := lastDetail()
+			if d.Begin < 0 || d.Begin > d.End || int(d.End) > len(ctx.parser.data) {
+				// 被放弃的解析分支留下的标注可能指向本段文本之外(如 computed 的原文只到已匹配处)，无文本可改写
+				break
+			}
 			dText := string(ctx.parser.data[d.Begin:d.End])
 
 			if !regexp.MustCompile("[dD][优優劣][势勢]").MatchString(dText) {
